@@ -278,19 +278,24 @@ def gen_case(rng):
   if kind == "restrict":
     D = gen_domain(rng)
     n = rng.randint(1, 7)
-    vk = rng.choice(["none", "none", "q", "pt", "corner", "far", "face", "face"])
+    vk = rng.choice(["none", "none", "q", "pt", "corner", "far", "face", "face", "nearface", "nearface"])
     vp = None if vk == "none" else (D["q"] if vk == "q" else gen_points(rng, D, 1)[0])
     if vk == "corner":
       vp = [float(rng.choice(lh)) for lh in D["bounds"]]
     points = gen_points(rng, D, n)
-    if vk == "face":
-      # viable point on a constraint face (acceptable, hence pushed toward the centre) and a point beyond that face
+    if vk in ("face", "nearface"):
+      # viable point on a constraint face (acceptable, hence pushed toward the centre) and a point beyond that face;
+      # "nearface": strictly inside but within / just beyond the 1e-8 boundary tolerance of the face (2^-27 < 1e-8 < 2^-26)
       vp = list(D["q"])
       cand = [(w, r, j) for w, r in D["cons"] for j, x in enumerate(w) if abs(x) == 1]
       if cand:
         w, r, j = rng.choice(cand)
         vp[j] = (r - sum(w[i] * vp[i] for i in range(len(vp)) if i != j)) / w[j]
         points[0] = [vi - wi * rng.randint(1, 3) * D["scale"] / 4 for vi, wi in zip(vp, w)]
+        if vk == "nearface":
+          moved = vp[j] + w[j] * 2.0 ** -rng.choice([22, 25, 26, 27, 28, 30, 34, 40])
+          if fractions.Fraction(moved) != fractions.Fraction(vp[j]):
+            vp[j] = moved
     return kind, dict(bounds=D["bounds"], cons=D["cons"], points=points, viable=vp, on=rng.random() < 0.4,
                       us=[rng.randint(0, 63) / 64.0 for _ in range(n)], fixed=gen_fixed(rng, D))
   if kind == "near":
@@ -318,7 +323,8 @@ def gen_case(rng):
     n = rng.randint(1, 7)
     dim = len(D["bounds"])
     return kind, dict(bounds=D["bounds"], n=n, U=[[(1.0 / n) * rng.randint(1, 15) / 16.0 for _ in range(dim)] for _ in range(n)],
-                      perms=[rng.sample(range(n), n) for _ in range(dim)], via=rng.choice(["direct", "domain"]))
+                      perms=[rng.sample(range(n), n) for _ in range(dim)], via=rng.choice(["direct", "direct_opts", "domain"]),
+                      skip=rng.randint(0, 9), seed=rng.choice([None, 0, 7, rng.randrange(10 ** 6)]))
   if kind == "rej":
     D = gen_domain(rng, constrained=True, maxdim=3)
     while not D["cons"]:
@@ -430,6 +436,8 @@ def run_impl(kind, inp):
     with sc.active():
       if inp["via"] == "direct":
         out = smp.generate_latin_hypercube_points(inp["n"], B)
+      elif inp["via"] == "direct_opts":   # the sampler options skip / seed do not change which draws the strata use
+        out = smp.generate_latin_hypercube_points(inp["n"], B, skip=inp.get("skip", 0), seed=inp.get("seed"))
       else:
         out = make_domain(inp["bounds"], []).generate_quasi_random_points_in_domain(inp["n"])
     shapes = [c for c in sc.calls if c[0] == "shuffle"]
@@ -712,6 +720,10 @@ def gen_search(rng):
       t = (sum(wi * qi for wi, qi in zip(w, D["q"])) - r) / sum(wi * wi for wi in w)
       vp = [qi - t * wi for qi, wi in zip(D["q"], w)]
       points[0] = [vi - wi * rng.uniform(0.01, 1) * D["scale"] for vi, wi in zip(vp, w)]
+      if rng.random() < 0.5:   # strictly inside, within rounding distance ... 1e-9 of the face (inside the 1e-8 boundary tolerance)
+        back = 10.0 ** -rng.randint(9, 15) * max(1.0, max(abs(v) for v in vp))
+        nw = math.sqrt(sum(wi * wi for wi in w))
+        vp = [vi + back * wi / nw for vi, wi in zip(vp, w)]
     inp.update(points=points, viable=vp, on=rng.random() < 0.4, fixed=fixed)
   elif kind == "near":
     inp.update(point=D["q"] if rng.random() < 0.6 else real_points(rng, D, 1)[0], n=rng.randint(1, 10), std=10.0 ** rng.randint(-3, 1),
@@ -730,7 +742,7 @@ def gen_search(rng):
     else:
       inp.update(n=rng.randint(1, 15), force=rng.random() < 0.5, fixed=fixed)
   elif kind == "lhs":
-    inp.update(cons=[], n=rng.choice([1, 2, 5, 12, 13, 20, 31]))
+    inp.update(cons=[], n=rng.choice([1, 2, 5, 12, 13, 20, 31]), lhs_opts=rng.choice([None, dict(skip=rng.randint(0, 20), seed=rng.choice([None, 3, rng.randrange(10 ** 6)]))]))
   elif kind == "grid":
     dim = len(D["bounds"])
     inp.update(bounds=D["bounds"][:3], cons=[], ppd=rng.choice([rng.randint(0, 4), [rng.randint(1, 4) for _ in range(min(3, dim))]]))
@@ -830,7 +842,7 @@ def _oracle(kind, inp, dm, smp, geo, bounds, cons):
     return _check_points(kind, inp, out, exp, bounds, [])
   if kind == "lhs":
     n = inp["n"]
-    out = numpy.asarray(smp.generate_latin_hypercube_points(n, B))
+    out = numpy.asarray(smp.generate_latin_hypercube_points(n, B, **(inp.get("lhs_opts") or {})))
     r = _check_points(kind, inp, out, n, bounds, [])
     if r:
       return r
